@@ -31,6 +31,24 @@ RTOL = {torch.float32: 1e-6, torch.float64: 1e-12}
 
 
 # ------------------------------------------------------------------------------------ comparison
+_MISMATCH = [0]
+
+
+class typed_scope:
+    """Silences warnings but notes the library's own "index type mismatch" diagnosis: operands on which the
+    library itself reports a type mismatch are ill-typed, i.e. outside the property ("well-typed")."""
+    def __enter__(self):
+        self.cm = warnings.catch_warnings(record=True)
+        self.w = self.cm.__enter__()
+        warnings.simplefilter("always")
+        return self
+
+    def __exit__(self, *a):
+        if any("index type mismatch" in str(x.message) for x in self.w):
+            _MISMATCH[0] += 1
+        return self.cm.__exit__(*a)
+
+
 def cmp_dense(got, want, arith: bool, atol_too: bool = False, dtype: bool = True) -> Optional[Tuple[str, str]]:
     """None if `got` denotes `want`; else (clause, detail)."""
     if not isinstance(got, torch.Tensor):
@@ -341,8 +359,7 @@ def run_op(name: str, recipes: List[dict], args: list) -> List[Tuple[str, str]]:
     from fggs import indices as I
     o = OPS[name]
     out: List[Tuple[str, str]] = []
-    with warnings.catch_warnings():
-        warnings.simplefilter("ignore")
+    with typed_scope():
         T = [build_pt(r) for r in recipes]
         D = [dense_oracle(r) for r in recipes]
         snaps = [_snapshot(t) for t in T]
@@ -453,8 +470,7 @@ def _step(x, d, name, args):
 
 def run_prog(recipe: dict, prog: list) -> List[Tuple[str, str]]:
     from fggs import indices as I
-    with warnings.catch_warnings():
-        warnings.simplefilter("ignore")
+    with typed_scope():
         x = build_pt(recipe); d = dense_oracle(recipe)
         for i, (name, args) in enumerate(prog):
             try:
@@ -492,9 +508,12 @@ def run_prog(recipe: dict, prog: list) -> List[Tuple[str, str]]:
 # ------------------------------------------------------------------------------------ check_case / replay
 def check_case(case: dict) -> List[Tuple[str, str]]:
     """-> list of (obligation, detail)"""
+    _MISMATCH[0] = 0
     if "prog" in case:
-        return run_prog(case["ops"][0], case["prog"])
-    return [(f"{case['op']}.{cl}", det) for cl, det in run_op(case["op"], case["ops"], case.get("args", []))]
+        res = run_prog(case["ops"][0], case["prog"])
+    else:
+        res = [(f"{case['op']}.{cl}", det) for cl, det in run_op(case["op"], case["ops"], case.get("args", []))]
+    return [] if _MISMATCH[0] else res          # ill-typed operands (the library says so itself): out of scope
 
 
 def replay_case(case: dict) -> bool:
